@@ -298,10 +298,29 @@ def run_job(spec):
                                            exception=type(ctx.exc).__name__ if ctx.exc else None,
                                            actions=len(rec.actions(ctx.E))))
 
+    def on_path(status):
+        # C01 (termination): a path that hits the per-path cap is replayed concretely; only a concrete count that also fails
+        # to finish within its wall limit is a violation
+        if status != 'limit' or 'C01' not in spec['monitors'] or spec.get('allow_truncated'):
+            return
+        if seen_keys.get('count-does-not-terminate', 0) >= 1:
+            return
+        try:
+            eng.deadline = None
+            if not eng.check():
+                return
+            conc = U.concretize(eng.solver.model())
+        except core.PathAbort:
+            return
+        rep = pristine.ask(dict(kind='monitor', spec=spec, mvals=conc['mvals'], tvals=conc['tvals'], monitors=['C01']))
+        if (rep.get('exc') or '').startswith('TimeoutError'):
+            seen_keys['count-does-not-terminate'] = 1
+            res['violations'].append(dict(key='count-does-not-terminate', mvals=conc['mvals'], tvals=conc['tvals'], replay=rep))
+
     try:
         if lemma_fails:
             raise core.HarnessError('; '.join(lemma_fails))
-        outcome = eng.explore(body, U.pre, deadline=t0 + budget)
+        outcome = eng.explore(body, U.pre, deadline=t0 + budget, on_path=on_path)
     except core.HarnessError as ex:
         outcome = 'harness_error'
         res['harness_errors'].append(dict(why=str(ex), tb=traceback.format_exc()[-1200:]))
